@@ -30,8 +30,8 @@ import (
 )
 
 const (
-	quickCases    = 800
-	thoroughCases = 40000
+	quickCases    = 2400
+	thoroughCases = 160000
 	// sessionEndWatchdog bounds the wait for the server to notice a hard close.
 	sessionEndWatchdog = 20 * time.Second
 )
@@ -248,7 +248,10 @@ func buildRig(sc *scenario, id string) (*rig, error) {
 	}
 	sc.Config = sc.configText(id)
 	var lastErr error
-	for try := 0; try < 8; try++ {
+	for try := 0; try < 40; try++ {
+		if try > 0 {
+			time.Sleep(time.Duration(try) * 5 * time.Millisecond) // the port we were given got taken; ask again
+		}
 		port, err := freePort()
 		if err != nil {
 			return nil, err
@@ -268,6 +271,9 @@ func buildRig(sc *scenario, id string) (*rig, error) {
 		if !strings.Contains(err.Error(), "address already in use") {
 			break
 		}
+	}
+	if lastErr != nil && strings.Contains(lastErr.Error(), "address already in use") {
+		return nil, fmt.Errorf("endpoint init: %w", lastErr)
 	}
 	return nil, fmt.Errorf("endpoint init: %w\n%s", lastErr, sc.Config)
 }
@@ -543,35 +549,26 @@ func shapeOf(sc *scenario, rg *rig, eng *engine) string {
 }
 
 func leakSignature(sc *scenario, eng *engine, leaked []string) string {
-	// cause class: how the sender of the session was spelled and how transactions ended
-	spell := map[string]bool{}
+	// cause class, most specific first: how the transactions of the session ended / were spelled
+	cause := "sender-in-normal-form"
 	for _, st := range sc.Steps {
-		if st.Op == "mail" && !st.Invalid {
-			switch st.Spelling {
-			case "plain", "null":
-				spell["clean"] = true
-			default:
-				spell["raw-differs-from-clean"] = true
-			}
+		if st.Op == "mail" && !st.Invalid && st.Spelling != "plain" && st.Spelling != "null" {
+			cause = "sender-not-in-normal-form"
 		}
 	}
-	var sp []string
-	for k := range spell {
-		sp = append(sp, k)
-	}
-	sort.Strings(sp)
-	nested := ""
 	for _, tx := range eng.txs {
-		if tx.Nested && !strings.Contains(nested, "nested-mail") {
-			nested += "/nested-mail"
+		if tx.Nested {
+			cause = "nested-mail"
 		}
-		if tx.Term == "ehlo" && !strings.Contains(nested, "repeated-greeting") {
-			nested += "/repeated-greeting-in-transaction"
+	}
+	for _, tx := range eng.txs {
+		if tx.Term == "ehlo" {
+			cause = "repeated-greeting-in-transaction"
 		}
 	}
 	mode := "immediate"
 	if sc.Defer {
 		mode = "deferred"
 	}
-	return fmt.Sprintf("e/permit-not-returned/%s/sender-spelling=%s%s", mode, strings.Join(sp, "+"), nested)
+	return fmt.Sprintf("e/permit-not-returned/%s/%s", mode, cause)
 }
